@@ -168,10 +168,14 @@ def check(ctx):
     flag_true = [n for n in g.nodes if n.kind == 'stmt' and isinstance(n.ast, ast.Assign) and isinstance(n.ast.value, ast.Constant) and n.ast.value.value is True and norm(n.ast.targets[0]).startswith('self.')]
     ctx.need(len(flag_true) == 1, 'run(): safelink enable site not found')
     flag = norm(flag_true[0].ast.targets[0])
-    fl = [n for n in g.nodes if n.kind == 'for' and flag_true[0].id in {b.id for b in g.loop_body_nodes(n)}]
+    reqn = [(n, c) for n, c in g.find(lambda q: method_call(q, 'send_packet')) if n.id not in body and isinstance(c.args[0], ast.Tuple)]
+    req = [c for n, c in reqn]
+    # the negotiation loop is the loop that sends the request; the flag is set in it or after it (search loop + flag), never in the main loop
+    fl = [n for n in g.nodes if n.kind == 'for' and reqn and reqn[0][0].id in {b.id for b in g.loop_body_nodes(n)}]
     rng = fold_in(run, fl[0].ast.iter) if fl else None
-    ctx.inst('R8', run, 'negotiation-bounded', len(fl) == 1 and isinstance(rng, tuple) and 1 <= len(rng) <= 10 and fl[0].id not in body, 'safelink is negotiated in a start-up loop of at most 10 attempts; %s' % (len(rng) if isinstance(rng, tuple) else rng))
-    req = [c for n, c in g.find(lambda q: method_call(q, 'send_packet')) if n.id not in body and isinstance(c.args[0], ast.Tuple)]
+    placed = bool(fl) and flag_true[0].id not in body and (flag_true[0].id in {b.id for b in g.loop_body_nodes(fl[0])} or g.dominates(fl[0], flag_true[0]))
+    ctx.inst('R8', run, 'negotiation-bounded', len(fl) == 1 and isinstance(rng, tuple) and 1 <= len(rng) <= 10 and fl[0].id not in body and placed,
+             'safelink is negotiated in a start-up loop of at most 10 attempts; %s' % (len(rng) if isinstance(rng, tuple) else rng))
     sent = fold_in(run, req[0].args[0]) if req else None
     echo = None
     for f in g.facts_at(flag_true[0]):
@@ -212,8 +216,26 @@ def check(ctx):
     ctx.inst('R9', sp, 'false-only-on-full', okf, 'False is returned only from the queue.Full handler, which reports the link error')
     ctx.inst('R9', sp, 'put-blocks-bounded', bool(put) and [norm(a) for a in put[0][1].args] == [sp.params[1], 'True', '2'], 'put(pk, block, 2 s)')
     rp = Dr.method('receive_packet')
-    rets = {norm(s.value) for s in walk_own(rp.node) if isinstance(s, ast.Return)}
-    ctx.inst('R9', rp, 'receive-returns-queue-items', rets <= {'None', 'self.in_queue.get(False)', 'self.in_queue.get(True)', 'self.in_queue.get(True, %s)' % rp.params[1]} and len(rets) == 4,
+    retn = [s.value for s in walk_own(rp.node) if isinstance(s, ast.Return)]
+    rets = {norm(v) if v is not None else 'None' for v in retn}
+    grp = cfg_of(rp)
+    okr = bool(retn) and any(isinstance(v, ast.Call) for v in retn)
+    for v in retn:
+        if v is None or (isinstance(v, ast.Constant) and v.value is None):
+            continue
+        if not (isinstance(v, ast.Call) and norm(v.func) == 'self.in_queue.get' and not v.keywords):
+            okr = False
+            continue
+        # argument lists (block, timeout): literal, or *args from a local that only ever holds such tuples
+        forms = []
+        if len(v.args) == 1 and isinstance(v.args[0], ast.Starred) and isinstance(v.args[0].value, ast.Name):
+            rn = [n for n in grp.nodes if n.kind == 'return' and n.ast.value is v]
+            for d in (grp.reaching_defs(rn[0], v.args[0].value.id) if rn else []):
+                forms.append([norm(e) for e in d.ast.value.elts] if isinstance(d.ast, ast.Assign) and isinstance(d.ast.value, ast.Tuple) else ['?'])
+        else:
+            forms.append([norm(a) for a in v.args])
+        okr = okr and bool(forms) and all(f in (['False'], ['True'], ['True', rp.params[1]]) for f in forms)
+    ctx.inst('R9', rp, 'receive-returns-queue-items', okr,
              'receive_packet returns only items of the in queue or None; returns %s' % sorted(rets))
     inq = [(n, c) for n, c in g.find(lambda q: method_call(q, 'put') and 'in_queue' in norm(q.func.value)) if n.id in body]
     ok = len(inq) == 1 and fact_key('len(data) > 0', True) in g.fact_keys_at(inq[0][0])
